@@ -298,6 +298,83 @@ def history_search(ck: Ck) -> None:
     ck.hist('search', f'histories: {len(POISONS)} kinds of earlier event x strings up to length 2 x 2 modes', 2 * len(POISONS) * 211)
 
 
+# ------------------------------------------------------------------------------------------------ histories of escape_text calls (fresh interpreters)
+ESC_HISTORY = 'escape_text-called-in-the-other-mode-first'
+
+
+def _fresh(code: str, timeout: int = 600) -> Any:
+    """Run `code` (which prints one JSON value) in a FRESH interpreter with the implementation on its path."""
+    import subprocess
+    import sys
+    from harness.common import ENV_IMPL
+    r = subprocess.run([sys.executable, '-c', code], capture_output=True, text=True, timeout=timeout, env=ENV_IMPL, cwd=str(VERIF))
+    if r.returncode != 0:
+        raise U.Inconclusive(f'fresh interpreter failed: rc={r.returncode} {r.stderr[-400:]}')
+    return json.loads(r.stdout.strip().splitlines()[-1])
+
+
+def _esc_history_child(first_multiline: bool, n: int) -> None:
+    """(child) For every string over the escape alphabet up to length n, in an interpreter that has not called escape_text before:
+    escape_text(s, first mode) - result ignored -, then the property in the OTHER mode, then again in the first mode.  A function
+    of (text, multiline) cannot tell; a memo keyed by the text alone can."""
+    from srctools.tokenizer import escape_text
+    bad = []
+    for s in U.strings_upto(ESC_ALPHA, n):
+        try:
+            escape_text(s, first_multiline)
+        except Exception:  # noqa: BLE001
+            pass
+        for ml in (not first_multiline, first_multiline):
+            r = oracle(s, ml)
+            if r is not None:
+                bad.append([[ord(c) for c in s], ml, r, ml != first_multiline])
+    print(json.dumps(bad))
+
+
+def reproduces_fresh(s: str, ml: bool, kw: dict, history: bool) -> bool:
+    """Does oracle(s, ml, **kw) fail in a fresh interpreter (optionally after escape_text(s, not ml))?"""
+    pre = f'escape_text({s!r}, {not ml}); ' if history else ''
+    code = ('import json; from srctools.tokenizer import escape_text; import checks.c02 as c; ' + pre
+            + f'print(json.dumps(c.oracle({s!r}, {ml}, **{kw!r}) is not None))')
+    return bool(_fresh(code))
+
+
+def escape_history_search(ck: Ck) -> None:
+    """escape_text is a function of (text, multiline): calling it in one mode must not change what it returns in the other mode
+    later.  Two fresh interpreters (single-line first / multiline first), every string up to length 2 (3 thorough)."""
+    n = 3 if ck.thorough else 2
+    reported: set[str] = set()
+    import subprocess
+    for first in (False, True):
+        try:
+            bad = _fresh(f'import checks.c02 as c; c._esc_history_child({first}, {n})', timeout=300)
+        except (U.Inconclusive, subprocess.TimeoutExpired, OSError, ValueError) as e:
+            # a search that could not run reduces coverage, it is not a finding; a fault that breaks or hangs escape_text itself is
+            # reported by the in-process searches
+            ck.notes.append(f'escape_text histories ({"multiline" if first else "single-line"} first): fresh interpreter gave no result: {str(e)[:200]}')
+            ck.count('search_escape_text_histories_not_run')
+            continue
+        ck.count('search_escape_text_histories', 2 * sum(len(ESC_ALPHA) ** k for k in range(n + 1)))
+        for codes, ml, why, after_other in bad:
+            s = ''.join(map(chr, codes))
+            if not after_other or reproduces_fresh(s, ml, {}, False):
+                ck.count('search_history_independent_failures')     # fails without any history: the exhaustive search reports it
+                continue
+            mode = 'multi' if ml else 'single'
+            kind = why.split(' ')[0] if why.startswith(('raw-', 'linebreak', 'dangling')) else 'roundtrip'
+            cls = '+'.join(cname(c) for c in s) or 'empty'
+            key = f'{kind}-{mode}-{cls}-after-{ESC_HISTORY}'
+            k0 = f'{kind}-{mode}'
+            if k0 in reported:
+                ck.count('search_failures_beyond_cap')
+                continue
+            reported.add(k0)
+            ck.violation(key, f'after escape_text({s!r}, multiline={not ml}) in the same interpreter, escape_text({s!r}, multiline={ml}) no longer satisfies the property: {why}',
+                         {'s': codes, 'multiline': ml, 'context': {}, 'history': ESC_HISTORY, 'why': why,
+                          'how': 'fresh interpreter: escape_text(s, not multiline); checks.c02.oracle(s, multiline)'})
+    ck.hist('search', f'escape_text histories: other mode first, 2 fresh interpreters x strings up to length {n}', 4 * sum(len(ESC_ALPHA) ** k for k in range(n + 1)))
+
+
 CAP = 3
 _REPORTED: dict[str, int] = {}
 
@@ -346,11 +423,25 @@ def report(ck: Ck, s: str, ml: bool, why: str, ctx: dict | None = None) -> None:
         esc = escape_text(small, ml)
     except Exception as e:  # noqa: BLE001
         esc = f'<{type(e).__name__}>'
+    hist = None
+    if not ctx.get('kv'):
+        kw1 = {k: ctx[k] for k in ('pre', 'post', 'cut', 'bits', 'via') if k in ctx}
+        try:
+            if not reproduces_fresh(small, ml, kw1, False):
+                # the failure needs something that happened earlier in this process
+                hist = ESC_HISTORY if reproduces_fresh(small, ml, kw1, True) else 'earlier-calls-in-the-checking-process'
+                key += f'-after-{hist}'
+        except (U.Inconclusive, OSError, ValueError, __import__('subprocess').TimeoutExpired):
+            pass
     how = {'attr': ' [tokenizer built with every option the other way round, options then set through the attributes]',
            'switch': ' [options set through the attributes after the tokens of the prefix were read]'}.get(via, '')
-    ck.violation(key, f'escape_text({small!r}, multiline={ml}) = {esc!r}: {why}{how}',
-                 {'s': [ord(c) for c in small], 'multiline': ml, 'context': ctx, 'why': why,
-                  'how': 'checks.c02.oracle("".join(map(chr, s)), multiline, **context)'})
+    if hist:
+        how += f' [only after {hist}: in a fresh interpreter the same call passes]'
+    rep = {'s': [ord(c) for c in small], 'multiline': ml, 'context': ctx, 'why': why,
+           'how': 'checks.c02.oracle("".join(map(chr, s)), multiline, **context)'}
+    if hist:
+        rep['history'] = hist
+    ck.violation(key, f'escape_text({small!r}, multiline={ml}) = {esc!r}: {why}{how}', rep)
 
 
 def search(ck: Ck, escalate: bool) -> None:
@@ -365,6 +456,7 @@ def search(ck: Ck, escalate: bool) -> None:
                 report(ck, s, ml, r)
     # (h) histories: state carried from one tokenizer to the next
     history_search(ck)
+    escape_history_search(ck)
     # (a) exhaustive over the escape alphabet
     for ml in (False, True):
         for s in U.strings_upto(ESC_ALPHA, n):
@@ -440,6 +532,28 @@ def search(ck: Ck, escalate: bool) -> None:
     ck.sample({'search_example': {'s': 'a\\"\n', 'escape_text single': 'a\\\\\\"\\n', 'tokens': '[(STRING, s)] then EOF'}})
 
 
+def sample_escape_text(chars: list[str], inv: dict[str, str]) -> tuple[str, str] | None:
+    """Stand-in for the translator when the body of escape_text is outside its statement language (translate/c02_tables.py
+    `translate(sample=...)`): the real escape_text on every single character of ESCAPES_INV, both modes -> the characters each mode
+    leaves alone.  None when a character maps to something that is neither itself nor its table entry."""
+    try:
+        with U.time_limit():
+            from srctools.tokenizer import escape_text
+            out = []
+            for ml in (False, True):
+                ex = ''
+                for c in chars:
+                    e = escape_text(c, ml)
+                    if e == c:
+                        ex += c
+                    elif e != inv[c]:
+                        return None
+                out.append(ex)
+            return out[0], out[1]
+    except (U.ImplTimeout, Exception):  # noqa: BLE001
+        return None
+
+
 # ------------------------------------------------------------------------------------------------ correspondence
 def model_counterexamples(ck: Ck) -> None:
     """Small-scope search INSIDE Coq on the model of the code (escape_text pipeline as translated + tokenizer model):
@@ -458,6 +572,7 @@ def model_counterexamples(ck: Ck) -> None:
         return
     wit = [(ml, ''.join(map(chr, w))) for ml, v in zip((False, True), vals[:2]) for w in parse_coq_nested(v)]
     wit += [(ml, chr(c) * m) for ml, v in zip((False, True), vals[2:]) for c, m in parse_coq_nested(v)]
+    wit.sort(key=lambda t: len(t[1]))
     ck.obligation('instance:escape_text_model_roundtrips_small_scope', not wit,
                   f'in-kernel enumeration (escape_text pipeline as translated from the source + tokenizer model) of all {n} strings over the '
                   f'escape alphabet up to length 3 and every run of one of these characters of length 5, 17, 33, 65, 129, 257, x 2 modes: '
@@ -738,7 +853,19 @@ def _run(ck: Ck) -> None:
     ck.trusted.append('harness/c02_util.py checksum mirror of Text/TokEnum.v (63-bit; a collision would hide a disagreement)')
     ck.assumptions.append('Python str = list of code points; re.sub over an alternation of single characters acts per character (exercised by the string correspondence)')
     ck.assumptions.append('pure-Python tokenizer only; the Cython twin _tokenizer.pyx cannot be built in this sandbox')
-    ok_t = ck.translate('EscTables_gen', c02_tables.translate)
+    ok_t = ck.translate('EscTables_gen', lambda: c02_tables.translate(sample=sample_escape_text))
+    side0 = ck.extra.get('translated', {}).get('EscTables_gen', {})
+    if ok_t and side0.get('escape_text_failed_closed'):
+        # the tables were read, but the body of escape_text (or a regex) is outside the statement language: a named obligation of its
+        # own; a per-character stand-in keeps every file building and every other obligation / correspondence evaluated
+        ck.obligation('translate:escape_text', False, f'translator failed closed on the body of escape_text: {side0["escape_text_failed_closed"]} '
+                                                      f'(stand-in pipeline: {side0.get("escape_text_fallback")})')
+        ck.tie_broken.append(f'translator escape_text: {side0["escape_text_failed_closed"]}')
+    elif ok_t:
+        ck.obligation('translate:escape_text', True, 'body of escape_text recognised (pipeline of whole-string steps)')
+    if side0.get('escape_text_state'):
+        ck.tie_broken.append(f'escape_text keeps state between calls: {side0["escape_text_state"][:4]}')
+        ck.notes.append(f'escape_text census: {side0["escape_text_state"][:6]}')
     ok_h = translate_hstring(ck)
     ok_g = U.translate_get_token_trees(ck)
     side = ck.extra.get('translated', {}).get('EscTables_gen', {})
@@ -763,6 +890,7 @@ def _run(ck: Ck) -> None:
             'escape_text_steps_wellformed': 'escape_rows_wellformed',
             'escape_text_is_one_table_substitution_single': 'escape_is_one_substitution false',
             'escape_text_is_one_table_substitution_multi': 'escape_is_one_substitution true',
+            'escape_text_uses_no_state_outliving_the_call': 'escape_text_uses_no_state_outliving_the_call',
             'token_enum_values_distinct': 'token_values_distinct',
             'operators_name_known_tokens': 'operators_all_known',
         })
@@ -793,9 +921,13 @@ def replay(data: dict) -> int:
     s = ''.join(map(chr, r['s']))
     ml = bool(r['multiline'])
     ctx = r.get('context') or {}
+    if r.get('history') == ESC_HISTORY:
+        print(f'history: first escape_text(s, multiline={not ml}) = {escape_text(s, not ml)!r}')
+    elif r.get('history') == 'earlier-calls-in-the-checking-process':
+        print('history: the failure was observed only after earlier calls in the checking process; it may not reproduce here')
     esc = escape_text(s, ml)
     print(f's = {s!r}\nescape_text(s, multiline={ml}) = {esc!r}')
-    if r.get('history'):
+    if r.get('history') in dict(POISONS):
         print(f'history: first {r["history"]} (text {dict(POISONS).get(r["history"])!r}), then a new tokenizer')
         run_poison(r['history'])
     if ctx.get('via'):
@@ -811,7 +943,7 @@ def replay(data: dict) -> int:
             print('tokens:', list(tk))
         except Exception as e:  # noqa: BLE001
             print('tokenizer raised', repr(e))
-        if r.get('history'):
+        if r.get('history') in dict(POISONS):
             run_poison(r['history'])
         res = oracle(s, ml, **kw)
     mv = U.model_eval([f'gen_escape {"true" if ml else "false"} {coq_str(s)}',
